@@ -52,34 +52,41 @@ Definition G2 (a f : str) : str * str := (a, f).
 Definition V3 (n : nat) (a : str) (p : option ppath) : nat * str * option ppath := (n, a, p).
 (* decls: the declared argument names of every class, declaration order (read off the real
    ObjectType.arguments); the heap holds `fields` in the order of the .values dict of the real
-   configuration (assignment order), as observed before the submit                            *)
-Definition case_t := (heap * list (list (str * str)) * list (list str) * nat * answer)%type.
-Definition Case (h : heap) (g : list (list (str * str))) (d : list (list str)) (r : nat) (a : answer) : case_t :=
-  (h, g, d, r, a).
+   configuration (assignment order), as observed before the submit; ids: for every configuration
+   attached as a pre-task, its raw identifier (lower-case hex: same order as the bytes), [] for
+   the others                                                                                  *)
+Definition case_t := (heap * list (list (str * str)) * list (list str) * list str * nat * answer)%type.
+Definition Case (h : heap) (g : list (list (str * str))) (d : list (list str)) (ids : list str) (r : nat)
+                (a : answer) : case_t := (h, g, d, ids, r, a).
 
-Definition check_with (esc : str -> str) (SE : list (list str) -> nat -> node -> list edge) (second : bool)
-                      (c : case_t) : bool :=
-  let '(h, gens, decls, root, a) := c in
-  let hd := map (by_decl decls) h in
-  match generated esc (SE decls) h gens root jd with
+Definition check_with (esc : str -> str) (SE : list (list str) -> (nat -> str) -> nat -> node -> list edge)
+                      (second : bool) (c : case_t) : bool :=
+  let '(h, gens, decls, ids, root, a) := c in
+  let idk := fun n => nth n ids [] in
+  let hd := map (norm_node decls idk) h in
+  match generated esc (SE decls idk) h gens root jd with
   | None => false
   | Some l =>
       list_eqb Bool.eqb (map sealed h) (a_sealed a)
       && values_agree h l (a_values a) && (if second then values_agree h l (a_values2 a) else true)
-      (* the hypotheses of C17_assigned_inside_distinct hold on the generated heaps *)
+      (* the hypotheses of C17_sorted_inside_distinct hold on the generated heaps *)
       && files_plainb gens && names_wfb hd && task_targets_cutb hd
       && forallb (fun nd => nodup_keys (map fst (fields nd))) h
   end.
 
-(* C17: the model of the repaired code.  The second submit is a fresh copy whose dicts may have been
-   filled in the opposite order, or whose parameters may have been assigned in another order: same
-   configuration, same model answer (C17_dict_order_irrelevant, C17_assignment_order_irrelevant) *)
-Definition check_case := check_with esc_fix seal_edges_decl true.
+(* C17: the model of the repaired code (fixes/C17-1, -2, -3).  The second submit is a fresh copy whose
+   dicts may have been filled in the opposite order, whose parameters may have been assigned in another
+   order, or whose pre-tasks may have been added in another order: same configuration, same model answer
+   (C17_dict_order_irrelevant, C17_assignment_order_irrelevant_sorted, C17_pretask_order_irrelevant)  *)
+Definition check_case := check_with esc_fix seal_edges_sorted true.
+(* the code before fixes/C17-3.diff: pre-tasks placed by their index in the list (the harness gives
+   the values of the first submit twice when the second copy has its pre-tasks in another order)   *)
+Definition check_case_listorder := check_with esc_fix (fun decls _ => seal_edges_decl decls) true.
 (* diagnosis: the code before fixes/C17-2.diff (dicts walked in insertion order), first submit only *)
 Definition check_case_insertion :=
-  check_with esc_fix (fun decls n nd => seal_edges_insertion n (by_decl decls nd)) false.
+  check_with esc_fix (fun decls _ n nd => seal_edges_insertion n (by_decl decls nd)) false.
 (* diagnosis: the code before fixes/C17-1.diff (keys used as they are) *)
 Definition check_case_prefix :=
-  check_with esc_prefix (fun decls n nd => seal_edges_insertion n (by_decl decls nd)) false.
+  check_with esc_prefix (fun decls _ n nd => seal_edges_insertion n (by_decl decls nd)) false.
 (* diagnosis: a walk that iterates .values.items() (assignment order), first submit only *)
-Definition check_case_assigned := check_with esc_fix (fun _ => seal_edges_assigned) false.
+Definition check_case_assigned := check_with esc_fix (fun _ _ => seal_edges_assigned) false.
